@@ -626,7 +626,11 @@ def load_func_for_dataclass(
     fn_gen = FunctionBuilder()
 
     if has_json_paths:
-        loop_over_o = num_paths != len(dataclass_init_fields(cls))
+        # When each constructor field has a path, every value is fetched by
+        # `safe_get` and there is no need to loop over the keys of `o` --
+        # unless unknown keys must be reported, which the loop does.
+        loop_over_o = (num_paths != len(dataclass_init_fields(cls))
+                       or bool(meta.raise_on_unknown_json_key))
         _locals['safe_get'] = safe_get
     else:
         loop_over_o = True
